@@ -64,8 +64,10 @@ TRun == /\ IsEvent("Run")
            /\ gdig' = t.dig
         /\ UNCHANGED <<vars, coder, one, exempt, olen, stall>>
 
+ToSet(sq) == {sq[i] : i \in 1..Len(sq)}
 TParse == /\ IsEvent("Parse")
           /\ TraceLog[l].ret \in Documented(TraceLog[l].entry)
+          /\ Len(TraceLog[l].expect) > 0 => TraceLog[l].ret \in ToSet(TraceLog[l].expect)   \* verdict fixed by the grammar
           /\ UNCHANGED <<vars, coder, one, exempt, olen, stall, gdig>>
 
 TNext == TReset \/ TCall \/ TFinal \/ TGroup \/ TRun \/ TParse
